@@ -22,7 +22,7 @@ PROPS = {
     'C18': {'units': ['dsu', 'order', 'pphase', 'fvalid', 'iterord', 'hashord'], 'kani': []},
     'C14': {'units': ['pack', 'pack2', 'pack3', 'pubin'], 'kani': []},
     'C12': {'units': ['bits', 'chal', 'coef', 'rcair', 'prep'], 'kani': [], 'only': {'chal': r'canonical_width', 'prep': r'operand_[ac]_takes_part_in_the_witness_bus'}},
-    'C15': {'units': ['shape', 'bshape', 'openin', 'hmerge', 'bprep'], 'kani': [], 'only': {'openin': r'per_matrix_shape_and_grouping|compute_single_reduced_opening|height_group'}},
+    'C15': {'units': ['shape', 'bshape', 'openin', 'hmerge', 'bprep', 'c15guard'], 'kani': [], 'only': {'openin': r'per_matrix_shape_and_grouping|compute_single_reduced_opening|height_group'}},
     'C13': {'units': ['sym', 'symx', 'airlay'], 'kani': []},
     'C09': {'units': ['prep', 'mult', 'pread', 'pphase', 'ptrace'], 'kani': [], 'exclude': r'H_the_preprocessed_row_of_a_constant_commits_its_value'},
     'C08': {'units': ['mmcs', 'hash', 'mbind', 'vbatch', 'vbatchx', 'a4sched', 'a4path'], 'kani': []},
